@@ -48,6 +48,20 @@ class NonDeterminism(SxControl):
 
 CUR = [None]
 
+_SIMP = {}
+
+
+def simp(t):
+    """z3.simplify with a cache keyed by AST id (re-execution rebuilds the same terms on every path)."""
+    k = t.get_id()
+    r = _SIMP.get(k)
+    if r is None:
+        r = (t, z3.simplify(t))
+        if len(_SIMP) > 2000000:
+            _SIMP.clear()
+        _SIMP[k] = r
+    return r[1]
+
 
 def ctx():
     c = CUR[0]
@@ -192,7 +206,7 @@ class Ctx:
 
     def decide(self, t, hint=None):
         """t: z3 BoolRef.  Returns the Python bool chosen on this path."""
-        t = z3.simplify(t)
+        t = simp(t)
         if z3.is_true(t):
             return True
         if z3.is_false(t):
@@ -298,7 +312,7 @@ class Ctx:
             return False
         if self.replaying():
             return True
-        t = z3.simplify(cond)
+        t = simp(cond)
         if z3.is_true(t):
             return True
         if self._check(z3.Not(t)):
@@ -428,7 +442,7 @@ def _tobool(o):
 
 
 def mk_bool(t):
-    t = z3.simplify(t)
+    t = simp(t)
     if z3.is_true(t):
         return True
     if z3.is_false(t):
@@ -604,7 +618,7 @@ class SymInt:
         if lo == hi:
             return lo
         x = SymInt(t, lo, hi)
-        n = z3.simplify(x._n)
+        n = simp(x._n)
         if z3.is_bv_value(n):
             return n.as_signed_long() if x.signed else n.as_long()
         x._n = n
@@ -1016,7 +1030,7 @@ class SymInt:
         els = []
         for i in range(length):  # big endian
             bit = 8 * (length - 1 - i)
-            e = z3.simplify(z3.Extract(bit + 7, bit, t))
+            e = simp(z3.Extract(bit + 7, bit, t))
             els.append(e.as_long() if z3.is_bv_value(e) else e)
         if byteorder == "little":
             els.reverse()
